@@ -31,6 +31,7 @@ def predBattery (s : Sys) : String :=
   let items : List String := [
     "isd=" ++ tri (fun d => b2c (Pred.invStateDepth d sT)) D,
     "isdc=" ++ tri (fun d => b2c (Pred.invStateDepthCurrentRun d sT)) L,
+    "isd0=" ++ String.singleton (b2c (Pred.invStateDepthCurrentRun 0 sT)),
     "irm=" ++ String.ofList [ob2c (Pred.invReceivedMessages n0 p0 datas sT), ob2c (Pred.invReceivedMessages n0 p0 (datas.drop 1) sT),
                             ob2c (Pred.invReceivedMessages n0 p0 (datas ++ [zz]) sT)],
     "ggn=" ++ tri (fun n => ob2c (Pred.gotNLocalMessages n0 p0 n sT)) OL,
